@@ -54,7 +54,7 @@ def worker_init():
     global SCRATCH
     from sim.fakes import quiet_logging
     quiet_logging()
-    SCRATCH = '/tmp/vsim-c04-%08d' % (os.getpid() % 10 ** 8)
+    SCRATCH = os.path.join(os.environ.get('VERIF_SCRATCH', '/tmp'), 'vsim-c04-%08d' % (os.getpid() % 10 ** 8))
     import atexit
     atexit.register(lambda: shutil.rmtree(SCRATCH, ignore_errors=True))
 
